@@ -59,7 +59,7 @@ def maxSegments : Nat := 129
 /-- a complete name at `off`: labels, end offset -/
 def decName (buf : Bytes) (off : Nat) : Option (WName × Nat) :=
   match decFrom buf maxSegments off off with
-  | some (n, e) => if nameLen n ≤ 253 then some (n, e) else none
+  | some (n, e) => if nameLen n ≤ 253 ∧ wireLen n ≤ 255 then some (n, e) else none
   | none => none
 
 def charString (buf : Bytes) (off : Nat) : Option (Bytes × Nat) := do
